@@ -437,6 +437,70 @@ def run_diff(mp, rec, desc):
         judge(rec, desc, v, orc, p, inside, why, label, nontrivial=(k > 0), ident_extra=(k if len(res) > 1 else None))
 
 
+def run_history(mp, rec, desc):
+    """lazily evaluated objects under a changing working precision.
+    kind 'diffs-history': g = diffs(f, x, n) created at the first precision of the plan; the plan is a list of
+    [precision, number of items to consume]; every yielded derivative must meet the bound at
+        min(precision current when the samples it was computed from were taken, precision current when it was yielded)
+    -- 'samples taken' is observed behaviourally (the wrapped f was evaluated during that next()), so the rule does not
+    depend on how the generator batches its stencils.
+    kind 'diffun-history': g = diffun(f, n) built at p1 and called at p2: must meet the bound at p2."""
+    fn = fn_of(desc['f'])
+    x0 = xpt(desc['x'])
+    opts = desc.get('opts', {})
+    f0 = fn.tree(mp)
+    calls = [0]
+
+    def f(t):
+        calls[0] += 1
+        return f0(t)
+    plan = desc['plan']
+    old = mp.prec
+    items = []           # (order, value, required precision)
+    label = '%s/%s/%s' % (desc['kind'], desc['f']['fam'], 'raise' if plan[-1][0] > plan[0][0] else 'lower')
+    try:
+        mp.prec = plan[0][0]
+        kw = _opts(mp, opts)
+        x = xtree(mp, desc['x'], desc.get('form', 'mpf'))
+        try:
+            if desc['kind'] == 'diffun-history':
+                g = mp.diffun(f, desc['n'], **kw)
+                mp.prec = plan[1][0]
+                items.append((desc['n'], g(x), plan[1][0]))
+            else:
+                g = mp.diffs(f, x, desc['n'], **kw) if desc['n'] is not None else mp.diffs(f, x, **kw)
+                k = 0
+                p_sample = None
+                for pp, cnt in plan:
+                    mp.prec = pp
+                    for _ in range(cnt):
+                        c0 = calls[0]
+                        try:
+                            v = next(g)
+                        except StopIteration:
+                            break
+                        if calls[0] > c0:
+                            p_sample = pp
+                            rec.event('diffs-history: next() that took new samples')
+                        items.append((k, v, min(p_sample if p_sample is not None else pp, pp)))
+                        k += 1
+        except Exception as e:
+            rec.case(repr(desc), True, cls=label + '/exception')
+            rec.violation('C28/%s/exception/%s' % (desc['kind'], type(e).__name__), '%s raised %s: %s' % (desc['kind'], type(e).__name__, str(e)[:80]),
+                          desc, observed=repr(e)[:200], expected='values')
+            return
+    finally:
+        mp.prec = old
+    if mp.prec != old:
+        pass
+    rec.event('history cases run (lazy object used under a changed precision)')
+    for k, v, preq in items:
+        o, nxt = fn.deriv(x0, k)
+        inside, why = envelope_1d(fn, x0, k, opts, preq, o, nxt, 'diffs' if desc['kind'] == 'diffs-history' else 'diff')
+        judge(rec, desc, v, o, preq, inside, why, label, nontrivial=(k > 0), key='C28/%s/precision-change' % desc['kind'],
+              ident_extra=(k, preq))
+
+
 def run_partial(mp, rec, desc):
     """separable product f1(x) f2(y) [f3(z)] or a polynomial in several variables"""
     p = desc['prec']
@@ -642,7 +706,7 @@ def run_pade(mp, rec, desc):
     rec.maximum('log2 pade residual/(2^-p scale)', worst if worst is not None else -1e9, case)
 
 
-RUNNERS = {'diff': run_diff, 'diffun': run_diff, 'diffs': run_diff, 'taylor': run_diff, 'partial': run_partial,
+RUNNERS = {'diffs-history': run_history, 'diffun-history': run_history, 'diff': run_diff, 'diffun': run_diff, 'diffs': run_diff, 'taylor': run_diff, 'partial': run_partial,
            'difference': run_difference, 'differint': run_differint, 'pade': run_pade}
 
 
@@ -691,6 +755,9 @@ def gen_x(r, kind):
         return [rd(r, -2, 2, 3), rd_nz(r, -2, 2, 3)]
     if kind == 'tiny':
         return [r.choice([-3, 1, 5]), -r.choice([20, 40, 70])]
+    if kind == 'float53':
+        m, e = math.frexp(r.uniform(-4, 4) or 0.3)
+        return [int(m * (1 << 53)) | 1, e - 53]
     return rd(r, -4, 4, 4)
 
 
@@ -698,8 +765,8 @@ OPTSETS = ['default', 'default', 'h-exact', 'h-small', 'addprec', 'relative', 'd
            'addprec-small', 'dir+singular']
 ENTRY = ['diff', 'diff', 'diff', 'diffun', 'diffs', 'diffs-endless', 'taylor', 'taylor-nochop']
 FAMS = ['poly', 'exp', 'ratl', 'poly', 'exp', 'exp-fast']
-XK = ['mid', 'mid', 'zero', 'large', 'complex', 'tiny', 'mid']
-OTHER = ['partial/poly2', 'partial/poly3', 'partial/sep2', 'partial/sep3', 'difference', 'difference-int', 'differint/int', 'differint/frac', 'pade/dense',
+XK = ['mid', 'mid', 'zero', 'large', 'complex', 'tiny', 'mid', 'float53']
+OTHER = ['history/diffs-raise', 'history/diffs-lower', 'history/diffs-endless-raise', 'history/diffs-endless-lower', 'history/diffun', 'partial/poly2', 'partial/poly3', 'partial/sep2', 'partial/sep3', 'difference', 'difference-int', 'differint/int', 'differint/frac', 'pade/dense',
          'pade/exp', 'pade/edge', 'pade/rounded']
 
 
@@ -761,14 +828,38 @@ def gen_main(r, i, p):
         desc['endless'] = True
     if entry == 'taylor-nochop':
         desc['chop'] = False
-    if r.random() < 0.15 and xk in ('mid', 'zero'):
-        desc['form'] = 'py'
+    if (r.random() < 0.15 and xk in ('mid', 'zero')) or (xk == 'float53' and r.random() < 0.8):
+        desc['form'] = 'py'           # the evaluation point is handed over as a Python int / float object
     if kind in ('diffs', 'taylor') and opts.get('method') == 'quad':
         desc['n'] = min(n, 4)
     return desc
 
 
 def gen_other(r, cell, p):
+    if cell.startswith('history'):
+        sub = cell.split('/')[1]
+        d = gen_fn(r, r.choice(['poly', 'exp', 'exp', 'ratl']))
+        x = gen_x(r, r.choice(['mid', 'mid', 'zero']))
+        p1 = r.choice([30, 40, 53, 64, 80, 100, 120])
+        dl = r.choice([20, 25, 40, 64, 100])
+        p2 = p1 + dl
+        if sub == 'diffun':
+            lo, hi = (p1, p2) if r.random() < 0.6 else (p2, p1)
+            return {'kind': 'diffun-history', 'f': d, 'x': x, 'n': r.choice([1, 2, 3, 5]), 'opts': {}, 'plan': [[lo, 0], [hi, 1]], 'prec': hi}
+        raise_ = sub.endswith('raise')
+        a, b = (p1, p2) if raise_ else (p2, p1)
+        if 'endless' in sub:
+            # change the precision after j items, j from 1 upwards (the statement's bound applies at the precision of each sampling)
+            j = r.choice([1, 2, 3, 4, 5, 6, 8])
+            plan = [[a, j], [b, r.choice([3, 5, 8])]]
+            if r.random() < 0.3:
+                plan.append([a, 3])
+            return {'kind': 'diffs-history', 'f': d, 'x': x, 'n': None, 'opts': r.choice([{}, {}, {'direction': 1}, {'singular': True}]),
+                    'plan': plan, 'prec': max(a, b)}
+        n = r.choice([2, 3, 5, 8])
+        j = r.choice([1, 1, 2, 3])
+        return {'kind': 'diffs-history', 'f': d, 'x': x, 'n': n, 'opts': r.choice([{}, {}, {'addprec': 20}]), 'plan': [[a, j], [b, n + 1]],
+                'prec': max(a, b)}
     if cell.startswith('partial'):
         sub = cell.split('/')[1]
         dim = 2 if sub.endswith('2') else 3
@@ -895,6 +986,12 @@ def required(agg, tier):
     for need in ('pade/L0/M0', 'pade/L+/M0', 'pade/L0/M+', 'pade/L+/M+'):
         if need not in cl:
             miss.append('no %s case' % need)
+    if not agg['events'].get('history cases run (lazy object used under a changed precision)') or \
+            not agg['events'].get('diffs-history: next() that took new samples'):
+        miss.append('no diffs()/diffun() object was used under a changed precision')
+    for need in ('diffs-history/', 'diffun-history/'):
+        if not any(k.startswith(need) and k.endswith('/in') for k in cl):
+            miss.append('no in-envelope %s case' % need)
     if not agg['events'].get('pade residuals checked by exact series multiplication'):
         miss.append('pade residual monitor saw nothing')
     return miss
